@@ -203,6 +203,12 @@ PolicyRefinement ==    \* the code's policy is one of the choices of the safety 
     stack # << >> => \A c \in {count + 1} :
         CodeChoice(age, c) \subseteq Evictable(age, c)
 
+(* refinement: the set-level behaviour of this specification is a behaviour of CacheSafety.tla, whose invariant *)
+(* IndInv is inductive (Apalache): the two bookkeeping clauses then hold for any number of requests            *)
+Abs == INSTANCE CacheSafety WITH AllKeys <- Keys \cup Helpers \cup Inputs, data <- data, aged <- DOMAIN age, frozen <- frozen,
+                                 recent <- {x \in DOMAIN age : count - age[x] <= 1}
+AbsSafety == Abs!ASpec
+
 (* C02 / C01 *)
 NoInPlaceWrite   == [][(dirty' \ dirty) \cap handed = {}]_vars   \* nothing the user already holds is ever written
 CacheNeverWritten == \A k \in data : obj[k] \notin dirty  \* nor anything later requests may read
